@@ -239,6 +239,17 @@ def check_property(prop: str, tier: str, seed: int) -> int:
         # stop at the test module: test code is not part of the property
         cut = src_txt.find("#[cfg(test)]")
         spans = [(u["lines"][0], u["lines"][1]) for u in units_ev if u["file"] == fs["file"] and u["unit"] in fs["allowed_units"]]
+        # functions exempted by name (each one is listed as an assumption of the property)
+        for fname in fs.get("allowed_functions", []):
+            for mfn in re.finditer(r"\bfn\s+%s\s*[(<]" % re.escape(fname), src_txt):
+                k0 = src_txt.find("{", mfn.end())
+                if k0 < 0:
+                    continue
+                bi = next((ix for ix, t in enumerate(toks) if t.start == k0), None)
+                if bi is None:
+                    continue
+                ci = _rt.match_close(toks, bi)
+                spans.append((src_txt.count("\n", 0, mfn.start()) + 1, src_txt.count("\n", 0, toks[ci].end) + 1))
         obligations += 1
         bad = []
         for pat in fs["patterns"]:
